@@ -55,10 +55,13 @@ ROUTES = [
     ('/files/{p:path}', 'files'),
     ('/u/{u:uuid}', 'uuid'),
     ('/x/{a}-{b}', 'pair'),
+    ('/plain/list', 'plain'),  # routes without any field (their params start out empty)
+    ('/plain', 'root'),
 ]
 REQS = [
     ('/items/42', 't0'), ('/users/bob/posts/7', 't1'), ('/files/a/b/c.txt', 't2'), ('/x/left-right', 't3'),
     ('/u/12345678123456781234567812345678', 't4'), ('/items/notanint', 't5'), ('/nothing/here', 't6'), ('/users/al/posts/0', 't7'),
+    ('/plain/list', 't8'), ('/plain', 't9'),
 ]
 
 
@@ -213,6 +216,8 @@ class TokenMw(object):
         Y('mw.resource')
         if req.context.token != req.get_header('X-Token'):
             resp.set_header('X-Context-Corrupted', '1')
+        # documented: process_resource may modify params to inject additional kwargs for the responder
+        params['mw_' + self.tag] = req.get_header('X-Token')
         Y('mw.resource.2')
 
     def process_response(self, req, resp, resource, req_succeeded):
@@ -288,7 +293,7 @@ class SteadyEnum(Suite):
     case_timeout = 120
 
     def cases(self, tier):
-        pairs = [(0, 1), (2, 5), (3, 6)] if tier == 'quick' else list(itertools.permutations(range(len(REQS)), 2))[:20]
+        pairs = [(0, 1), (2, 5), (3, 6), (8, 9)] if tier == 'quick' else [(8, 9), (9, 8), (8, 0)] + list(itertools.permutations(range(len(REQS)), 2))[:20]
         for a, b in pairs:
             for dep in (False, True):
                 for k1 in range(0, 16):
@@ -449,6 +454,8 @@ class AMw(object):
         await AY(req)
         if req.context.token != req.get_header('X-Token'):
             resp.set_header('X-Context-Corrupted', '1')
+        params['mw_' + self.tag] = req.get_header('X-Token')
+        await AY(req)
 
     def __init__(self, tag):
         self.tag = tag
@@ -635,7 +642,7 @@ class AsgiEnum(Suite):
 
     def cases(self, tier):
         n = 7 if tier == 'quick' else 9
-        for pair, dep in (([0, 1], False), ([2, 5], False), ([0, 7], True), ([7, 3], True), ([1, 3], False)):
+        for pair, dep in (([0, 1], False), ([2, 5], False), ([0, 7], True), ([7, 3], True), ([1, 3], False), ([8, 9], False), ([9, 8], True)):
             for L in range(1, n + 1):
                 for w in itertools.product((0, 1), repeat=L):
                     yield {'reqs': pair, 'word': list(w), 'chunks': [5], 'dependent': dep}
